@@ -99,17 +99,50 @@ def reorder_bounds_first(X):
     return rest[:1] + vb + rest[1:]
 
 
-def build_harness(ck):
+NLW2_SRC = ['nl-writer2/src/dtoa.cc', 'nl-writer2/src/nl-utils.cc', 'nl-writer2/src/nl-writer2.cc']
+
+
+def generate_tables(ck):
+    """what the CMake build does: compile the tree's src/gen-expr-info.cc and let it write expr-info.cc and nl-opcodes.h"""
+    gdir = os.path.join(BUILD, 'gen', 'c03gen')
+    os.makedirs(os.path.join(gdir, 'mp'), exist_ok=True)
+    exe = ck.cxx('gen_expr_info', [os.path.join(REPO, 'src', f) for f in ('gen-expr-info.cc', 'format.cc', 'posix.cc')],
+                 flags=['-O0', '-w', '-I' + os.path.join(REPO, 'src')])
+    ei, oh = os.path.join(gdir, 'expr-info.cc'), os.path.join(gdir, 'mp', 'nl-opcodes.h')
+    tmp_ei, tmp_oh = ei + '.new', oh + '.new'
+    rc, out, err = sh([exe, tmp_ei, tmp_oh], timeout=120)
+    if rc != 0:
+        raise RuntimeError('gen-expr-info failed: ' + (out + err)[-500:])
+    for t, f in ((tmp_ei, ei), (tmp_oh, oh)):
+        if not os.path.exists(f) or open(f).read() != open(t).read():
+            os.replace(t, f)
+        else:
+            os.remove(t)
+    return gdir, ei, oh
+
+
+def build_harness(ck, gdir, ei):
     fl = ('-O1', '-g')
-    objs = ck.libmp_objects(flags=fl) + ck.libnlw2_objects(flags=fl)
-    h = ck.objects([os.path.join(VERIF, 'harness', 'h_nlw2.cc')], flags=fl, extra_inc=[os.path.join(BUILD, 'gen')], tag='c03')
+    mp_src = [os.path.join(REPO, s) for s in ck.LIBMP_SRC if not s.endswith('expr-info.cc')] + [ei]
+    objs = ck.objects(mp_src, flags=fl, tag='mp') + ck.objects([os.path.join(REPO, s) for s in NLW2_SRC], flags=fl, tag='nlw2')
+    h = ck.objects([os.path.join(VERIF, 'harness', 'h_nlw2.cc')], flags=fl, extra_inc=[os.path.join(BUILD, 'gen'), gdir], tag='c03')
     return ck.link('h_nlw2', h + objs, flags=[])
 
 
 def run(ck):
     gen = os.path.join(LEAN, 'MpVerif', 'Gen', 'OpcodesW.lean')
     inc = os.path.join(BUILD, 'gen', 'c03_opcodes.inc')
-    rc, out, err = sh([sys.executable, os.path.join(VERIF, 'translators', 'gen_opcodes_c03.py'), REPO, gen, inc], timeout=300)
+    stale = []
+    try:
+        gdir, ei, oh = generate_tables(ck)
+        for tracked, g, what in ((os.path.join(REPO, 'src', 'expr-info.cc'), ei, 'src/expr-info.cc (reader table)'),
+                                 (os.path.join(REPO, 'nl-writer2', 'include', 'mp', 'nl-opcodes.h'), oh, 'nl-opcodes.h (writer table)')):
+            if os.path.exists(tracked) and open(tracked).read() != open(g).read():
+                stale.append((what, tracked))
+        rc, out, err = sh([sys.executable, os.path.join(VERIF, 'translators', 'gen_opcodes_c03.py'), REPO, gen, inc, oh, ei], timeout=300)
+    except RuntimeError as e:
+        rc, out, err = 2, '', str(e)
+        gdir = ei = None
     ck.log((out.strip() or err.strip())[-400:])
     translator_ok = rc == 0
     proof_ok, failing = False, []
@@ -128,7 +161,9 @@ def run(ck):
 
     # ------------------------------------------------------------ implementation run
     try:
-        exe = build_harness(ck)
+        if ei is None:
+            raise RuntimeError('table generator (src/gen-expr-info.cc) does not build/run')
+        exe = build_harness(ck, gdir, ei)
     except RuntimeError as e:
         ck.add_violation('harness:does-not-build', 'the harness no longer compiles/links against the tree (writer opcode constant without '
                          'reader expression kind, or an interface change): %s' % str(e)[-1500:], {'error': str(e)[-3000:]}, found_input=False)
@@ -155,6 +190,10 @@ def run(ck):
                          {'stderr': main_err, 'last_run': last and last['run'], 'model': last and last['model'],
                           'cmd': '%s %s %d <dir>' % (exe, ck.tier, ck.seed)})
 
+    for what, tracked in stale:
+        ck.add_violation('tables:copy-in-tree-differs-from-generator', 'the copy of %s in the tree differs from what the tree\'s own '
+                         'src/gen-expr-info.cc generates (writer and reader would use different opcode tables outside a CMake build)' % what,
+                         {'file': tracked, 'how': 'build src/gen-expr-info.cc, run it, diff'}, found_input=False)
     # cross-check of the translator against the compiled tables ("# op NAME code=.. kind=..")
     compiled = {}
     for s in stats:
